@@ -5118,7 +5118,9 @@ class NullTerminated(Subconstruct):
     def _emitfulltype(self, ksy, bitwise):
         if len(self.term) > 1:
             raise NotImplementedError
-        return dict(terminator=byte2int(self.term), include=self.include, consume=self.consume, eos_error=self.require, **self.subcon._compilefulltype(ksy, bitwise))
+        subtype = self.subcon._compilefulltype(ksy, bitwise)
+        subtype.pop("size-eos", None) # the terminator delimits the field, not the end of stream
+        return dict(terminator=byte2int(self.term), include=self.include, consume=self.consume, eos_error=self.require, **subtype)
 
 
 class NullStripped(Subconstruct):
